@@ -83,6 +83,21 @@ func (x *Exec) resolveCallee(fr *Frame, c *ssa.CallCommon) *calleeInfo {
 	}
 	if fn == nil {
 		ci.key = "dynamic:" + c.Value.Name()
+		// a call through a function-typed struct field (a configured callback): an `extern
+		// field:<pkg.Type>.<Field>(params)` contract, if there is one, describes it
+		if u, ok := c.Value.(*ssa.UnOp); ok && u.Op == token.MUL {
+			if fa, ok := u.X.(*ssa.FieldAddr); ok {
+				if pt, ok := fa.X.Type().Underlying().(*types.Pointer); ok {
+					if stT, ok := pt.Elem().Underlying().(*types.Struct); ok {
+						k := "field:" + typeName(pt.Elem()) + "." + stT.Field(fa.Field).Name()
+						if ct := x.sp.Contracts[k]; ct != nil {
+							ci.key = k
+							ci.contract = ct
+						}
+					}
+				}
+			}
+		}
 		return ci
 	}
 	if fn.Synthetic != "" && strings.HasPrefix(fn.Synthetic, "instantiation") && fn.Origin() != nil {
